@@ -208,7 +208,7 @@ PROPS = {
     },
     "C07": {
         "modules": ["SxVerif.Props.C07"],
-        "components": ["pipeline", "gen", "e2eslow"],
+        "components": ["pipeline", "gen", "e2eslow", "e2eerr", "e2eapp"],
         "extra": [race_pipeline],
         "trusted_base": [
             "modelled, not verified: Go channel / select / sync.WaitGroup / sync.Pool semantics at the granularity of one channel operation or one call per step (Model/Pipe.lean); gopacket SerializeBuffer.Clear never fails; the request channel is modelled unbounded (superset of every capacity incl. rendezvous)",
@@ -252,7 +252,7 @@ PROPS = {
     },
     "C13": {
         "modules": ["SxVerif.Props.C13"],
-        "components": ["gen", "engine", "pipeline", "arpcache", "iface", "e2eapp"],
+        "components": ["gen", "engine", "pipeline", "arpcache", "iface", "e2eapp", "e2eerr"],
         "trusted_base": [
             "modelled, not verified: bufio.Scanner line splitting (64 KiB limit) and the easyjson decoder of IPPort as a line classifier (badJson | tooLong | entry(ip?, port)); net.ParseIP as an abstract outcome; cidranger as list membership",
         ],
